@@ -13,9 +13,16 @@ PROP = "C12"
 _CACHE = {}
 
 
+PAIR_STRIDE = [1, 0]          # [stride, offset] of the U-PAIR members used for two-game batches; set by run() before the pool is forked
+
+
 def setup():
     if "alpha" not in _CACHE:
-        _CACHE["alpha"] = B.alphabet()
+        main = B.alphabet()
+        pairs = B.pair_alphabet(*PAIR_STRIDE)
+        _CACHE["main_names"] = [n for n, _ in main]
+        _CACHE["pair_names"] = [n for n, _ in pairs]
+        _CACHE["alpha"] = main + pairs
         _CACHE["refs"] = B.solo_references(_CACHE["alpha"])
     return _CACHE["alpha"], _CACHE["refs"]
 
@@ -122,7 +129,7 @@ def work(shard):
         f, k = check_selection(names, via_main)
         out["dicts"] += 1
         out["solves"] += 2 * len(names)
-        if any(n in ("x_no_prune", "g_1", "m_1", "b2", "nf", "lp", "d_p1") for n in names) and len(names) >= 2:
+        if any(n in ("x_no_prune", "g_1", "m_1", "b2", "nf", "lp", "d_p1", "tw_float", "tw_lists", "tw_tuple") or n.startswith("u") for n in names) and len(names) >= 2:
             out["nontrivial"] += 1
         for x in f:
             out["n_violations"] += 1
@@ -140,11 +147,11 @@ def work(shard):
     return out
 
 
-RULE = ("alphabet of 10 named games (5 solvable incl. the paper's figure 5.5, a 42-state board game a game with a Player-1 state whose moves are all dead and a game whose pruned and unpruned runs differ without any dead state; two games carry their own 'prune_states' entry, 2 unsolvable when pruned, 3 malformed: "
+RULE = ("alphabet of 15 named games (the 5 added last are a well-formed game and four re-typed twins of it: a successor index written 2.0, transitions as lists, a transition list as a tuple - all malformed - and 1.0/True for 1 - legal); further every ordered two-game batch of the family U-PAIR (games that coincide in one aspect - graph, rows, owners, concatenated successors - and differ in another); first 10: (5 solvable incl. the paper's figure 5.5, a 42-state board game a game with a Player-1 state whose moves are all dead and a game whose pruned and unpruned runs differ without any dead state; two games carry their own 'prune_states' entry, 2 unsolvable when pruned, 3 malformed: "
         "negative reward / None transition list / no final state; the names 'x' and 'x_no_prune' collide on purpose); every ordered selection of 0..k distinct "
         "games is one batch history, run through run_games (and in thorough also through main -f FILE -s and the report); every entry must "
         "equal the solo solve of that game computed in a forked fresh process; non-trivial = a selection of >= 2 games containing a failing one")
-ASSUME = ["solo reference results computed once per run in a forked child process",
+ASSUME = ["solo reference results computed once per run, each game in a forked child process of its own",
           "a selection containing a name and the same name plus '_no_prune' is judged against last-write-wins semantics and reported as known "
           "finding KF-C12-1 while that finding is listed; any other discrepancy on such a selection is a VIOLATION"]
 KF = {"KF-C12-1": "a file containing games named 'x' and 'x_no_prune' yields keys x, x_no_prune, x_no_prune_no_prune: the unpruned entry of "
@@ -152,8 +159,10 @@ KF = {"KF-C12-1": "a file containing games named 'x' and 'x_no_prune' yields key
 
 
 def run(ctx):
+    PAIR_STRIDE[:] = [1, 0] if ctx.thorough else [2, ctx.seed % 2]
+    _CACHE.clear()
     alpha, refs = setup()
-    names = [n for n, _ in alpha]
+    names = list(_CACHE["main_names"])
     kmax = 4 if ctx.thorough else 3
     sels = []
     for k in range(0, kmax + 1):
@@ -167,6 +176,14 @@ def run(ctx):
         for k in range(0, 2):
             for p in itertools.permutations(names, k):
                 sels.append((p, True))
+    # every ordered two-game batch of the family U-PAIR (games that coincide in one aspect and differ in another)
+    pn = _CACHE["pair_names"]
+    npairs = 0
+    for a in pn:
+        for b in pn:
+            if a != b:
+                sels.append(((a, b), False))
+                npairs += 1
     chunks = [sels[i::ctx.jobs * 2] for i in range(ctx.jobs * 2)]
     tot = par.run_shards(work, [c for c in chunks if c], ctx.jobs)
     known = tot.get("known", {})
@@ -176,8 +193,8 @@ def run(ctx):
         raise par.HarnessError("C12: %d of %d selections run" % (tot["dicts"], len(sels)))
     cov = {"states": tot["dicts"], "transitions": tot["solves"], "traces_validated_against_impl": tot["dicts"],
            "evaluations": tot["dicts"], "distinct_nontrivial": tot["nontrivial"], "alphabet": names,
-           "max_selection_length": kmax, "selections_through_main": sum(1 for s in sels if s[1]),
-           "solo_reference_outcomes": {n: [refs[n][True][0], refs[n][False][0]] for n in names},
+           "max_selection_length": kmax, "ordered_two_game_batches_of_U_PAIR": npairs, "selections_through_main": sum(1 for s in sels if s[1]),
+           "solo_reference_outcomes": {n: [refs[n][True][0], refs[n][False][0]] for n in names}, "solo_references": "each game of the alphabets solved alone in a forked process of its own",
            "rule": RULE, "exhaustive": not tot.get("skipped_shards"), "samples": tot["samples"][:4]}
     return {"coverage": cov, "violations": tot["violations"], "known": known, "assumptions": ASSUME}
 
